@@ -60,7 +60,7 @@ struct TP {
         else if (k == "TSS") { r = reg.tss(parse_scalar(ident())); }
         else if (k == "TSD") { auto *kt = parse_scalar(ident()); need(','); r = reg.tsd(kt, ts()); }
         else if (k == "TSL") { auto *e = ts(); std::size_t n = 0; if (eat(',')) n = num(); r = reg.tsl(e, n); }
-        else if (k == "TSWD") { auto *e = parse_scalar(ident()); need(','); std::size_t range = num(); r = reg.tsw_duration(e, TimeDelta{(std::int64_t)range}); }   // duration window
+        else if (k == "TSWD") { auto *e = parse_scalar(ident()); need(','); std::size_t range = num(); std::size_t mn = 0; if (eat(',')) mn = num(); r = reg.tsw_duration(e, TimeDelta{(std::int64_t)range}, TimeDelta{(std::int64_t)mn}); }   // duration window
         else if (k == "TSW") { auto *e = parse_scalar(ident()); need(','); std::size_t per = num(); std::size_t mn = 0; if (eat(',')) mn = num(); r = reg.tsw(e, per, mn); }
         else if (k == "REF") { r = reg.ref(ts()); }
         else if (k == "TSB") {
